@@ -58,6 +58,6 @@ QUICK += [PL("pipe_api_t1_smallq", 1, TWO, preempt=1, qcap=8).name,             
           PL("pipe_single_t2", 2, THREE, preempt=0, driver="single", pack_size=_P2, cross=True).name,
           # sync rounds with nothing to flush: finalize right after construction, and sync_and_flush followed directly by finalize
           PL("pipe_empty_t2", 2, [], preempt=1).name, PL("pipe_multi_one_sample_t2", 2, TWO[:1], preempt=0, driver="multi").name]
-THOROUGH += [PL("T_pipe_multi_t2_three", 2, THREE, preempt=0, driver="multi", qcap=20).name, PL("T_pipe_api_t3", 3, TWO, preempt=0, qcap=8).name, "pipe_api_t1_smallq", "pipe_api_t2", "pipe_multi_t2", "pipe_single_t2", "pipe_empty_t2", "pipe_multi_one_sample_t2",
+THOROUGH += [PL("T_pipe_multi_t2_three", 2, THREE, preempt=0, driver="multi", qcap=20).name, PL("T_pipe_api_t3", 3, TWO, preempt=0).name, "pipe_api_t1_smallq", "pipe_api_t2", "pipe_multi_t2", "pipe_single_t2", "pipe_empty_t2", "pipe_multi_one_sample_t2",
              PL("T_pipe_single_t2_p1", 2, THREE, preempt=1, driver="single", pack_size=_P2).name, 
              PL("T_pipe_api_t1_p2", 1, TWO, preempt=2, qcap=8).name]
